@@ -52,7 +52,7 @@ func genRound(t *rapid.T) Round {
 	racy := rapid.IntRange(0, 3).Draw(t, "racy") == 0
 	n := rapid.IntRange(0, 8).Draw(t, "n")
 	for i := 0; i < n; i++ {
-		s := Step{Op: rapid.SampledFrom([]string{"signal", "signal", "signal", "broadcast", "open", "open", "cancel"}).Draw(t, "op"),
+		s := Step{Op: rapid.SampledFrom([]string{"signal", "signal", "signal", "broadcast", "open", "open", "cancel", "cancel", "lock", "unlock"}).Draw(t, "op"),
 			W: rapid.IntRange(0, p.K-1).Draw(t, "w"), Quiesce: true}
 		if racy {
 			s.Quiesce = rapid.Bool().Draw(t, "q")
@@ -210,6 +210,7 @@ func script(l *gatedLocker, c *xsync.ContextCond, p Round, out *vk.Outcome) erro
 	}
 	cancelled := map[int]bool{}
 	signals, broadcasts := 0, 0
+	held := false // the harness itself holds c.L (a producer may Signal/cancel inside its critical section)
 	signalWithWindow := false
 	prevQuiesced := true
 	for _, s := range p.Steps {
@@ -255,6 +256,18 @@ func script(l *gatedLocker, c *xsync.ContextCond, p Round, out *vk.Outcome) erro
 				}
 			}
 			open(s.W)
+		case "lock":
+			if !held {
+				l.Lock()
+				l.mark(-2, "harness Lock")
+				held = true
+				out.Label("lock-held-by-producer")
+			}
+		case "unlock":
+			if held {
+				l.Unlock()
+				held = false
+			}
 		case "cancel":
 			if !cancelled[s.W] {
 				cancelled[s.W] = true
@@ -267,7 +280,9 @@ func script(l *gatedLocker, c *xsync.ContextCond, p Round, out *vk.Outcome) erro
 		}
 		prevQuiesced = s.Quiesce
 		// a parked waiter whose context was cancelled has returned by the next quiescence
-		if s.Quiesce {
+		// (while the harness holds c.L a waiter that was already woken is legitimately queued on the lock, so
+		// the promptness of a cancelled Wait is only judged if nobody can have been woken yet)
+		if s.Quiesce && !(held && signals+broadcasts > 0) {
 			for i, w := range ws {
 				mu.Lock()
 				ret := w.returned
@@ -279,6 +294,10 @@ func script(l *gatedLocker, c *xsync.ContextCond, p Round, out *vk.Outcome) erro
 		}
 	}
 	// phase 3
+	if held {
+		l.Unlock()
+		held = false
+	}
 	for i := range ws {
 		open(i)
 	}
